@@ -119,6 +119,9 @@ func (t *T) IsClassIdentifier() bool {
 				return true
 			}
 		}
+
+		// IO, K9: a constant by shape unless a class of that name exists
+		return IsDefinedClassName(t.ToString())
 	}
 
 	return false
